@@ -25,6 +25,11 @@ CHECKS = {
     technique="TLA+ spec RpycLifetime (owner table counts, proxy counts, two FIFO streams) model-checked by TLC with the Accounting invariant; transition-cover and random histories executed on two real Connections with frame-by-frame manual delivery, compared state by state and trace-validated by TLC; reference-count and identity oracles",
     text="TLC exhausts all interleavings of send / send-in-tuple / request / drop / pass-back / deliver-either-stream / close for 2 objects and proves Accounting, Safety, LeakFree; the same histories are executed on a real connection pair whose two directions are released frame by frame, with the owner's table, the holder's proxy counts and the decoded frames in flight compared with the TLC state after every step, and longer random histories are validated against the spec by TLC",
     note="bounded model (2 objects, 3 boxings, streams of 3); lent objects are lists (built-in netref classes: no nested INSPECT during delivery); CPython refcounting with automatic GC disabled"),
+ "C08": dict(
+    spec="RpycLedger", design="5/C08",
+    technique="TLA+ spec RpycLedger (two peers, request/reply/exception frames, re-entrant serve with unwinding) model-checked by TLC; transition-cover and random request histories executed on two real Connections with frame-by-frame delivery, compared with the TLC state and trace-validated by TLC; frame-level ledger oracle over all traffic",
+    text="TLC exhausts request streams of 3 top-level requests over 7 outcome classes (value, reference, raises, undecodable arguments, unknown handler, unencodable result, nested callback), sync and async, in both directions, for exactly-one-response, routing by sequence number, kind, completeness and connection survival; the histories are executed on a real pair and every frame crossing the transport is accounted for",
+    note="single-threaded sides (C13 covers threads); bounded histories; exception payloads that are themselves unencodable (an int beyond the digit limit inside exception args) are not generated"),
 }
 NA = {}
 
